@@ -253,6 +253,26 @@ MUTATORS = {"append", "extend", "insert", "pop", "remove", "clear", "update", "a
 _IMMUTABLE_CALLS = {"tuple", "frozenset", "str", "int", "float", "bool", "bytes", "Map", "immutables.Map"}
 
 
+_MUT_CLASS = {}
+
+
+def _mutable_class(repo, name: str) -> bool:
+    """a class of the package whose instances can be changed after construction (not a NamedTuple, an Enum or a frozen dataclass)"""
+    key = (id(repo), name)
+    if key in _MUT_CLASS:
+        return _MUT_CLASS[key]
+    res = False
+    for rel, m in repo.modules.items():
+        for c in m.tree.body:
+            if isinstance(c, ast.ClassDef) and c.name == name:
+                bases = {ast.unparse(b).split(".")[-1].split("[")[0] for b in c.bases}
+                frozen = any(isinstance(d, ast.Call) and ast.unparse(d.func).split(".")[-1] == "dataclass" and any(k.arg == "frozen" and isinstance(k.value, ast.Constant) and k.value.value for k in d.keywords)
+                             for d in c.decorator_list)
+                res = not (bases & {"NamedTuple", "Enum", "IntEnum", "str", "int", "float", "tuple", "frozenset"}) and not frozen
+    _MUT_CLASS[key] = res
+    return res
+
+
 def _mutable_display(v: Optional[ast.AST]) -> bool:
     if isinstance(v, (ast.Dict, ast.List, ast.Set, ast.DictComp, ast.ListComp, ast.SetComp)):
         return True
@@ -320,6 +340,37 @@ def process_memory(ctx, files: Set[str], rule_prefix: str = "PY") -> int:
                               why=f"`{name}` lives as long as the process and is written at run time: what this code returns next depends on what ran before in the same process "
                                   f"(another scenario, an earlier step of a kept state), not only on its arguments",
                               construct=f"process-memo:{name}:{fn.qualname}")
+        # ---- default arguments: evaluated once, when the function is defined
+        for fn in m.funcs.values():
+            a = fn.node.args
+            pos = a.posonlyargs + a.args
+            pairs = list(zip(pos[len(pos) - len(a.defaults):], a.defaults)) + [(k, d) for k, d in zip(a.kwonlyargs, a.kw_defaults) if d is not None]
+            for arg, d in pairs:
+                kind = None
+                if _mutable_display(d):
+                    kind = "container"
+                elif isinstance(d, ast.Call) and _mutable_class(ctx.repo, ast.unparse(d.func).split(".")[-1]):
+                    kind = "object"
+                if kind is None:
+                    continue
+                nm = arg.arg
+                used = None
+                for x in ast.walk(fn.node):
+                    if isinstance(x, ast.Call) and isinstance(x.func, ast.Attribute) and x.func.attr in MUTATORS and isinstance(x.func.value, ast.Name) and x.func.value.id == nm:
+                        used = f"changed in place (.{x.func.attr})"
+                    elif isinstance(x, (ast.Subscript, ast.Attribute)) and isinstance(x.ctx, (ast.Store, ast.Del)) and isinstance(x.value, ast.Name) and x.value.id == nm:
+                        used = "written into"
+                    elif isinstance(x, ast.Assign) and isinstance(x.value, ast.Name) and x.value.id == nm and any(isinstance(t, ast.Attribute) for t in x.targets):
+                        used = f"kept as `{ast.unparse(x.targets[0])}`"
+                    elif isinstance(x, ast.Return) and isinstance(x.value, ast.Name) and x.value.id == nm:
+                        used = "returned"
+                if used is None:
+                    continue
+                n += 1
+                ctx.violation("H2", f"{rule_prefix}.process-memo", f"{fn.qualname}: the default of `{nm}` is one mutable {kind} for the life of the process", fn, d,
+                              why=f"`{nm}={ast.unparse(d)[:40]}` is built once, when the function is defined, and is {used}: every call that relies on the default shares that one {kind}, so a "
+                                  f"second run in the same process starts from what the first one left in it",
+                              construct=f"shared-default:{fn.qualname}:{nm}")
         # ---- cache decorators
         for fn in m.funcs.values():
             decs = [ast.unparse(d.func if isinstance(d, ast.Call) else d) for d in fn.node.decorator_list]
